@@ -68,7 +68,9 @@ def main(argv):
             agg["samples"].append({"seed": seed, "ops": res.ops})
         if res.violation is not None:
             v = res.violation
-            key = json.dumps(v.signature)
+            from . import known
+            fid = known.attribute(prop, {"signature": v.signature, "facts": v.facts, "detail": v.detail})
+            key = json.dumps([v.signature, fid])  # an instance of a known finding never hides a new one
             if key in seen_sigs:
                 seen_sigs[key]["count"] += 1
                 continue
@@ -86,7 +88,8 @@ def main(argv):
                 "step": v.step, "unminimised_len": len(res.ops), "count": 1,
                 # the seeds this worker interpreter executed before, for a whole-session replay
                 # should the violation depend on state earlier runs left behind in the process
-                "session": {"seed0": seed0, "stride": stride, "offset": offset, "k": k},
+                "session": {"seed0": seed0, "stride": stride, "offset": offset, "k": k,
+                            "tier": os.environ.get("PROVSIM_TIER", "quick")},
                 "python": sys.version.split()[0],
             }
             seen_sigs[key] = entry
